@@ -1,6 +1,6 @@
 (* C04 — issued tokens never exceed what was granted or what the client may ask for.
    Statements only; proofs are in Proofs/ScopeProofs.v and Proofs/C04Proofs.v. *)
-From Verif Require Import Base Scope Types Prog Pop Token Authorize System Config Run Monitors OneShot ScopeProofs Hoare C04Proofs C04More C04Resources C02Proofs C04Artifacts.
+From Verif Require Import Base Scope Types Prog Pop Token Authorize System Config Run Monitors OneShot ScopeProofs Hoare C04Proofs C04More C04Resources C02Proofs C04Artifacts JwtBearerProofs.
 Local Open Scope N_scope.
 
 (* A requested scope string is allowed for a client iff it is empty or every space-separated
@@ -13,9 +13,10 @@ Theorem scope_whole_entry : forall cs avail req,
 Proof. exact are_scopes_allowed_iff. Qed.
 Print Assumptions scope_whole_entry.
 
-(* In every state reachable by any history of operations (any configuration, any clients, refresh
-   chains of any length), the scopes of the current token of every stored grant are contained in
-   the scopes that were granted. *)
+(* In every state reachable by any history of operations (any configuration, any clients, any
+   interleaving of client_credentials, jwt-bearer - authenticated or anonymous -, authorization_code,
+   implicit, CIBA, refresh chains of any length), the scopes of the current token of every stored
+   grant are contained in the scopes that were granted. *)
 Theorem issued_within_grant : forall w dyn ops g,
   In g (st_gsess (s_store (fst (run_from w (init_state dyn) 0 ops)))) ->
   contains_all_scopes (g_granted g) (g_active g) = true.
@@ -37,6 +38,72 @@ Theorem ownerless_within_client : forall w n now r st,
     g_type g = GClientCredentials /\ g_refresh g = 0.
 Proof. exact cc_grant_post. Qed.
 Print Assumptions ownerless_within_client.
+
+(* jwt-bearer (RFC 7523): tokens only on a server that enabled the grant type, to a client registered
+   for it - the authenticated client of the request or, for a request that carries no client
+   identification at all where the embedder did not require client authentication, the anonymous
+   client (registered for jwt-bearer only, for the ids of the server's scopes); what is granted is
+   exactly what was requested, which the whole-entry rule allows for that client (the same predicate as
+   for client_credentials); the requested resources are among the server's configured ones; the
+   subject of the grant written is the one the embedder's assertion handler answered, its client the
+   authenticated (or anonymous) one; a refresh token only for a client registered for refresh_token
+   (never for the anonymous client). *)
+Theorem jwt_bearer_within_client : forall w n now r st,
+  is_tokens (snd (run_seq (jwt_bearer_grant w n now r) st)) = true ->
+  exists c g sub,
+    (snd (run_seq (authenticated w (t_cred r)) st) = Some c \/
+     (snd (run_seq (authenticated w (t_cred r)) st) = None /\ c = anonymous_client (w_cfg w) /\
+      cr_id (t_cred r) = 0 /\ cf_jwt_bearer_authn_required (w_cfg w) = false)) /\
+    has_grant GJwtBearer (cf_grants (w_cfg w)) = true /\
+    has_grant GJwtBearer (c_grants c) = true /\
+    are_scopes_allowed (c_scopes c) (cf_scopes (w_cfg w)) (t_scope r) = true /\
+    (cf_resource_enabled (w_cfg w) = true -> forall x, In x (t_resources r) -> In x (cf_resources (w_cfg w))) /\
+    t_assertion r = AsOk sub /\
+    st_gsess (fst (run_seq (jwt_bearer_grant w n now r) st)) = put_gsess g (st_gsess st) /\
+    g_granted g = t_scope r /\ g_active g = t_scope r /\ g_client g = c_id c /\ g_subject g = sub /\
+    g_type g = GJwtBearer /\
+    (g_refresh g <> 0 -> has_grant GRefreshToken (c_grants c) = true /\ cf_issue_refresh (w_cfg w) <> IssueNever).
+Proof. exact jwt_bearer_grant_post. Qed.
+Print Assumptions jwt_bearer_within_client.
+
+(* non-vacuity: an authenticated client obtains tokens (and a refresh token that works) for the
+   assertion's subject within its registration, introspection reports that subject and client; a scope
+   outside its registration, a client not registered for the grant and a refused assertion get nothing *)
+Example jwt_bearer_flow_authenticated :
+  match run (ex_jb_world false) []
+          [OpToken GJwtBearer (ex_jb_req (mkCred 1 true) "openid email" (AsOk "alice"));
+           OpIntrospect (mkQReq (mkCred 1 true) (PExact (mint 0 KAtOpaque)) true);
+           OpToken GJwtBearer (ex_jb_req (mkCred 1 true) "openid admin" (AsOk "alice"));
+           OpToken GJwtBearer (ex_jb_req (mkCred 2 true) "openid" (AsOk "alice"));
+           OpToken GJwtBearer (ex_jb_req (mkCred 1 true) "openid" AsBad);
+           OpToken GRefreshToken (mkTReq (mkCred 1 true) (mkBind None 0) "" 0 "" (mint 0 KRefresh) PkEmpty 0 HgOk BaApprove [] AsNone)] with
+  | [Out (OTokens t); Out (OIntro i); Out (OErr EInvalidScope); Out (OErr EUnauthorizedClient); Out (OErr EInvalidGrant); Out (OTokens t2)] =>
+      tr_at t = mint 0 KAtOpaque /\ tr_rt t = mint 0 KRefresh /\ tr_idt t = true /\
+      in_active i = true /\ in_sub i = "alice" /\ in_client i = 1 /\ in_scope i = "openid email" /\
+      tr_at t2 = mint 5 KAtOpaque
+  | _ => False end.
+Proof. exact ex_jb_authenticated. Qed.
+
+(* ... and a request without any client identification, on a server that allows it, obtains tokens for
+   the assertion's subject and the anonymous client (empty client id, no refresh token) for any scope
+   of the server, nothing for an unknown scope or without assertion; with identification but a wrong
+   credential or an unknown client id: invalid_client; where the embedder requires client
+   authentication: invalid_client for the anonymous request *)
+Example jwt_bearer_flow_anonymous :
+  match run (ex_jb_world false) []
+          [OpToken GJwtBearer (ex_jb_req (mkCred 0 false) "openid admin" (AsOk "bob"));
+           OpIntrospect (mkQReq (mkCred 1 true) (PExact (mint 0 KAtOpaque)) true);
+           OpToken GJwtBearer (ex_jb_req (mkCred 1 false) "openid" (AsOk "bob"));
+           OpToken GJwtBearer (ex_jb_req (mkCred 9 true) "openid" (AsOk "bob"));
+           OpToken GJwtBearer (ex_jb_req (mkCred 0 false) "openid nope" (AsOk "bob"));
+           OpToken GJwtBearer (ex_jb_req (mkCred 0 false) "openid" AsNone)],
+        run (ex_jb_world true) [] [OpToken GJwtBearer (ex_jb_req (mkCred 0 false) "openid" (AsOk "bob"))] with
+  | [Out (OTokens t); Out (OIntro i); Out (OErr EInvalidClient); Out (OErr EInvalidClient); Out (OErr EInvalidScope); Out (OErr EInvalidGrant)],
+    [Out (OErr EInvalidClient)] =>
+      tr_at t = mint 0 KAtOpaque /\ tr_rt t = 0 /\
+      in_active i = true /\ in_sub i = "bob" /\ in_client i = 0 /\ in_scope i = "openid admin"
+  | _, _ => False end.
+Proof. exact ex_jb_anonymous. Qed.
 
 (* authorization_code: only to a client registered for the grant type; the grant written carries the
    subject, client and granted scopes of the session the code indexed (identity is truthful), and the
@@ -112,7 +179,7 @@ Proof. vm_compute. auto. Qed.
 (* ---- resource indicators (RFC 8707) ---- *)
 
 (* In every state reachable by any history of operations (any configuration, any clients, any
-   interleaving of authorization_code, implicit, CIBA, client_credentials and refresh chains of any
+   interleaving of authorization_code, implicit, CIBA, client_credentials, jwt-bearer and refresh chains of any
    length), the resources the current token of every stored grant is for - the `aud` of a JWT access
    token, the `aud` introspection reports - are among the resources the grant was given. *)
 Theorem resources_within_grant : forall w dyn ops g,
@@ -125,8 +192,9 @@ Print Assumptions resources_within_grant.
    resource is among those the resource owner granted to the session (an empty grant allows nothing),
    the grant written records exactly the session's granted resources and, as the token's resources,
    the requested ones (all granted ones when none is named); a refresh only if the requested
-   resources are among the grant's granted ones, which it leaves untouched; client_credentials (no
-   resource owner) only if they are among the server's configured resources.  With the feature off
+   resources are among the grant's granted ones, which it leaves untouched; client_credentials and
+   jwt-bearer (no resource owner behind the request) only if they are among the server's configured
+   resources.  With the feature off
    the `resource` parameter is ignored and nothing is recorded. *)
 Theorem resources_decision : forall w n now r st,
   (is_tokens (snd (run_seq (code_grant w n now r) st)) = true ->
@@ -157,6 +225,13 @@ Theorem resources_decision : forall w n now r st,
   (is_tokens (snd (run_seq (cc_grant w n now r) st)) = true ->
    exists g,
      st_gsess (fst (run_seq (cc_grant w n now r) st)) = put_gsess g (st_gsess st) /\
+     g_active_res g = g_granted_res g /\
+     (cf_resource_enabled (w_cfg w) = true ->
+        (forall x, In x (t_resources r) -> In x (cf_resources (w_cfg w))) /\ g_granted_res g = t_resources r) /\
+     (cf_resource_enabled (w_cfg w) = false -> g_granted_res g = [])) /\
+  (is_tokens (snd (run_seq (jwt_bearer_grant w n now r) st)) = true ->
+   exists g,
+     st_gsess (fst (run_seq (jwt_bearer_grant w n now r) st)) = put_gsess g (st_gsess st) /\
      g_active_res g = g_granted_res g /\
      (cf_resource_enabled (w_cfg w) = true ->
         (forall x, In x (t_resources r) -> In x (cf_resources (w_cfg w))) /\ g_granted_res g = t_resources r) /\
